@@ -11,6 +11,10 @@ property text and not from the code:
   strictly sorted by name, first occurrence kept. `SameDir a b := canon a = canon b`. The snapshot lines the harness
   compares are the rendering of exactly this canonical form (`snapshotLines`), one line per entry in sorted order.
 * the oracle on an observation of the paired runs: the only acceptable observation is `equal`.
+* for the scenarios that write the exec.d programs of a restored layer again (harness kind `execd`) the observation
+  also carries what every run left in `exec.d`; the oracle (`execdVerdict`) demands equality of the runs and, when the
+  write succeeded, that the identical content is the documented one ("replaces all existing exec.d programs"): exactly
+  the wanted names, each a regular file of its own (no second name for its storage) holding its own source's bytes.
 -/
 namespace CnbVerif.Spec.Det
 open CnbVerif
@@ -74,5 +78,39 @@ def verdict (obs : String) : String :=
   -- correspondence reports it as a disagreement with the model's `equal`
   else if obs.startsWith "infra:" then "ok"
   else "fail:not a comparison result"
+
+/-! ### a restored layer's `exec.d` written again (harness kind `execd`) -/
+
+/-- one entry of the harness's listing of `exec.d`: `<name hex>:<kind>:<…>`; a regular file is
+`<name hex>:F:<hex of its bytes>:<number of names its storage has>` -/
+def parseListingEntry (s : String) : Option (Bytes × List String) :=
+  match s.splitOn ":" with
+  | n :: rest => (hexDecode n).map (fun n => (n, rest))
+  | [] => none
+
+/-- the listing shows `n` as a regular file holding exactly `b` whose storage has no other name -/
+def holdsOwnBytes (listing : List (Bytes × List String)) (n b : Bytes) : Bool :=
+  listing.any (fun e => e.1 == n && e.2 == ["F", hexEncode b, "1"])
+
+def contentFailure : String :=
+  "fail:exec.d is the same in every run but is not exactly the wanted programs, each an independent regular file holding its own source's bytes"
+
+/-- the oracle of the `execd` scenarios. `wanted` = the programs handed to the write (distinct names, sources present).
+Observation: `differ:…` (two runs differ: the property is violated), `infra:…`, or `equal|<result>|<listing>`. -/
+def execdVerdict (wanted : List (Bytes × Bytes)) (obs : String) : String :=
+  if obs.startsWith "differ:" then "fail:outputs of two runs on identical inputs " ++ obs
+  else if obs.startsWith "infra:" then "ok"
+  else
+    match obs.splitOn "|" with
+    | ["equal", res, listing] =>
+      if res.startsWith "err:" then "ok"       -- refused identically in every run: nothing is promised about exec.d
+      else if res != "ok" then "fail:not a comparison result"
+      else if wanted.isEmpty then (if listing == "absent" then "ok" else contentFailure)
+      else
+        match allSome ((listing.splitOn ",").map parseListingEntry) with
+        | some es =>
+          if es.length == wanted.length && wanted.all (fun w => holdsOwnBytes es w.1 w.2) then "ok" else contentFailure
+        | none => contentFailure
+    | _ => "fail:not a comparison result"
 
 end CnbVerif.Spec.Det
